@@ -376,9 +376,39 @@ def type_fmt_case(r):
     return c
 
 
+def fixed_tree_cases(rng, tier):
+    """a key named by required_keys AND allowed_keys of the same rule (in both orders), by two rules on one path, and
+    under an `|`"""
+    V = Value
+    out = []
+    fam = [
+        [([], "(Value.required_keys('a') & Value.allowed_keys('a'))", V.required_keys("a") & V.allowed_keys("a"), None),
+         (["a"], "Value.truthy()", V.truthy(), None)],
+        [([], "(Value.allowed_keys('a') & Value.required_keys('a'))", V.allowed_keys("a") & V.required_keys("a"), None),
+         (["a"], "Value.truthy()", V.truthy(), None)],
+        [([], "(Value.allowed_keys('a', 'b') & Value.required_keys('b'))", V.allowed_keys("a", "b") & V.required_keys("b"), None)],
+        [([], "(Value.required_keys('a') | Value.allowed_keys('a'))", V.required_keys("a") | V.allowed_keys("a"), None),
+         (["a"], "Value.truthy()", V.truthy(), None)],
+    ]
+    for rules in fam:
+        c = make_case(rng, rules, [], None, tier)
+        if c is not None:
+            out.append(c)
+    # the same split over two rules on one path: outside the domain (one rule per path), model only
+    twin = [([], "Value.required_keys('a')", V.required_keys("a"), None), ([], "Value.allowed_keys('a')", V.allowed_keys("a"), None)]
+    c = make_case(rng, twin, [], None, tier, k_only=True)
+    if c is not None:
+        out.append(c)
+    c = make_case(rng, list(reversed(twin)), [], None, tier, k_only=True)
+    if c is not None:
+        out.append(c)
+    return out
+
+
 def generate(rng, n, tier):
     from props import corners
-    _corner = corners.type_fmt_cases() + corners.html_cases(hnode)
+    import random as _random
+    _corner = corners.type_fmt_cases() + corners.html_cases(hnode) + fixed_tree_cases(_random.Random(0), tier)
     cases = list(_corner)
     while len(cases) < n:
         if rng.random() < 0.15:
